@@ -19,6 +19,7 @@ META = {
             '(unicode_to_bytes of more than one cluster) and the stream wrappers are outside the statement and not judged.',
 }
 CONTROL = (7, 9, 10, 11, 12, 13, 28, 29, 30, 31)
+STATS = {'box_inputs': 0, 'box_changed_segmentation': 0}
 UNDEF = [-1]
 
 
@@ -120,6 +121,11 @@ def conv_event(cp, rng, data, cuts, pres, box, sub):
     once = [list(q) for q in c.get_converter(pr, use_substitutes=sub)._mark(data, True)]
     ulonce = [cps(x) for x in c.get_converter(pr, use_substitutes=sub).to_unicode_list(data, True)]
     ustr = cps(c.bytes_to_unicode(data, preserve=pr, use_substitutes=sub))
+    if box and cp.dbcs:
+        # coverage only: did box protection change the segmentation of this input?
+        plain = [list(q) for q in cp.obj[False].get_converter(pr, use_substitutes=sub)._mark(data, True)]
+        STATS['box_inputs'] += 1
+        STATS['box_changed_segmentation'] += plain != once
     return {'o': 'c', 'c': cp.idx, 'box': box, 'sub': sub, 'pres': list(pres), 'chunks': [list(x) for x in chunks],
             'marks': marks, 'bufs': bufs, 'ul': ul, 'once': once, 'ulonce': ulonce, 'ustr': ustr}
 
@@ -291,6 +297,9 @@ def run(ctx):
                      'input': inp if e['o'] != 'c' else None}, data=e)
     ctx.cov['traces_validated_against_impl'] += len(batches)
     ctx.cov['events_by_kind'] = kinds
+    ctx.cov['box_protection'] = dict(STATS)
+    if STATS['box_changed_segmentation'] < 50:
+        raise core.MachineryError('vacuous: box protection hardly ever engaged (%r)' % STATS)
     for (name, tabs, ev, cp1), _ in results[:3]:
         if cp1:
             ctx.sample(dict(ev[300], codepage=cp1.name))
